@@ -540,14 +540,14 @@ pub fn acc_strategy(max_arrivals: usize) -> impl Strategy<Value = AccCase> {
 
 pub fn run_c10(ctx: &Ctx, report: &mut Report) {
     let max_events = ctx.tier.pick(300, 2000);
-    report.push(run_proptest(ctx, "arrival-histories", ctx.cases(150_000, 3_000_000), 800, || case_strategy(max_events, true), |c, t| exec_fd(c, t, "C10")));
+    report.push(run_proptest(ctx, "arrival-histories", ctx.cases(150_000, 500_000), 800, || case_strategy(max_events, true), |c, t| exec_fd(c, t, "C10")));
 }
 
 pub fn run_c11(ctx: &Ctx, report: &mut Report) {
     let max_events = ctx.tier.pick(200, 1500);
-    report.push(run_proptest(ctx, "stale-digest-twin", ctx.cases(100_000, 2_000_000), 800, || case_strategy(max_events, true), |c, t| exec_fd(c, t, "C11")));
+    report.push(run_proptest(ctx, "stale-digest-twin", ctx.cases(100_000, 400_000), 800, || case_strategy(max_events, true), |c, t| exec_fd(c, t, "C11")));
     let max_arrivals = ctx.tier.pick(150, 1500);
-    report.push(run_proptest(ctx, "steady-accuracy", ctx.cases(100_000, 2_000_000), 800, || acc_strategy(max_arrivals), exec_accuracy));
+    report.push(run_proptest(ctx, "steady-accuracy", ctx.cases(100_000, 600_000), 800, || acc_strategy(max_arrivals), exec_accuracy));
 }
 
 pub fn replay(ctx: &Ctx, sub: &str, case: &serde_json::Value, prop: &'static str) -> SubResult {
